@@ -23,6 +23,9 @@ def queries(tier):
                 for q in range(n):
                     qs.append(q_('flags:%s n=%d q=%d' % (kn, n, q), [n, k, q, 0],
                                  '%s(%d), all %d measured flags symbolic: refusal rule, state/log/draws untouched on refusal, flag updates' % (kn, q, n), tier))
+    import E2_common
+    qs += E2_common.book_active_queries(tier)
+    # E2_common.measure_stmt_queries (exec of a MeasureStatement) is not registered: propositional reduction does not finish (900 s, 30 GB)
     return qs
 
 
@@ -32,7 +35,7 @@ META = dict(
     assumptions=['FP results arbitrary (havoc); operator new never fails and returns zeroed memory',
                  'simulator level only: the evaluator keeps a second copy of the flag (checked by the evaluator queries when present)'],
     bounds={'n': '2 quick / 1..3 thorough'},
-    outside=['naming the qubit through array elements / parameters / object fields (evaluator)', 'measure on qubit[] marking every element (evaluator)'],
+    outside=['the evaluator\'s measure / reset / gate statement handlers and every way of naming the qubit in a program (exec of a single MeasureStatement: no verdict in 900 s, 30 GB)'],
 )
 
 
